@@ -134,6 +134,9 @@ func OKind(r int, path string) int
 // "tags": equal after erasing struct tags; "no-yaml": second = first minus YAML code).
 func CompareDecls(a, b, mode string) string
 
+// MethodTypes: the names of the types in the emitted source that declare the method (sorted).
+func MethodTypes(src, method string) []string
+
 // VFile declares a path of the virtual file system (os.Stat succeeds exactly for these).
 func VFile(path string)
 
